@@ -18,7 +18,7 @@ RULE = ('Hypothesis-generated histories of 1..12 steps against ONE worker proces
         'mmd_engine_export_token_tree() without re-parsing (one parse, many writers); random-anchor steps are executed as history but not compared; '
         'pool bracket per step or around the whole history. Oracle: every compared step equals the same call made FIRST in a fresh '
         '(non-sanitised) process; the caller\'s buffer is unchanged (or holds the converted text for OPML sources). Packages are compared '
-        'member by member under a UUID/date mask. Non-trivial: history of length>=2 where a compared step follows a step with a stateful '
+        'member by member under a UUID/date mask. Also: sessions of one OPML-importing engine (parsed formats, the MMD text, metadata queries in between), sessions of documents nested around the parser depth limit (997..2000 quote levels), and re-exports preceded by exports through other writers; the library must stay silent on fd 2 while a parsed tree is exported again. Non-trivial: history of length>=2 where a compared step follows a step with a stateful '
         'feature; distinct by serialised history.')
 ASSUMPTIONS = ['the fresh-process reference is produced by the `plain` build of the same worker, one new process per distinct (doc, fmt, ext, lang)',
                'EPUB/ODT/TextBundle/ITMZ contain declared-random UUIDs, today\'s date and zip timestamps: compared under a mask applied to both sides',
